@@ -131,6 +131,24 @@ CLAIMS['C04'] = dict(
     note='Trusted: clang 14 front end/CFG; doc/file-formats.md as schema oracle; the dimension table in rules/c04.py.',
     ref='5 (C04), 4 (A8, A3)')
 
+CLAIMS['C19'] = dict(
+    technique='binding rules on call arguments, ordering (dominance / must-pass) on the CFG, correlated-condition pairing',
+    text=('Decides: the listing undoes its byte swap of the line buffer on every path; the use-list/debug bookkeeping '
+          'records the physical load address (ProgCounter), the line\'s length, line, file and segment and runs before '
+          'the counter is advanced; every processed line is listed; symbol table and debug info are produced after the '
+          'last pass (debug info only for error-free runs). Rendered listing/MAP/share text is not decided.'),
+    note='Trusted: clang 14 front end/CFG.',
+    ref='5 (C19)')
+CLAIMS['C20'] = dict(
+    technique='slot exhaustiveness per constructor (must-pass), save/restore pairing between constructors and their installed callbacks, ordering queries',
+    text=('Decides: every input-tag constructor fills the processor, clean-up and position-reporter slots on all paths; '
+          'every line processor updates the current line (file lines by the number of physical lines read); what a '
+          'tag\'s restorer copies back into the position state was saved from that same state by the constructor; the '
+          'EXPECT lookup precedes the emitter and suppresses announced messages, ENDEXPECT reports every leftover; the '
+          'position reporter walks the whole tag chain. Positions printed for concrete nestings are not decided.'),
+    note='Trusted: clang 14 front end/CFG.',
+    ref='5 (C20)')
+
 NA_REASONS = {}
 
 
